@@ -801,7 +801,10 @@ pub fn drive<V, S>(
             Ok(()) => {}
             Err(TestError::Fail(_, v)) => {
                 for c in expand(&v) {
-                    if let Outcome::Violation(m) = judge(&c) {
+                    if let Outcome::Violation(_) = judge(&c) {
+                        // proptest shrank the generated value; now drop the documents and fields
+                        // the failure does not need
+                        let (c, m) = crate::common::minimise_case(&c, &judge);
                         sub.violations.push(Violation { case: c, message: m });
                         break;
                     }
